@@ -225,6 +225,16 @@ def _run_history(fb, x, z, ops, M, N, buf=None):
             fb.get_response(fftlength=2 * M)
             fb.tile_response(2, fftlength=2 * M)
             y = None
+        elif op[0] == 'k':
+            # the stream continues on a deep copy of the object (the original is dropped)
+            import copy as _copy
+            fb = _copy.deepcopy(fb)
+            y = None
+        elif op[0] == 'p':
+            # ... or on the object after a pickle round trip
+            import pickle as _pickle
+            fb = _pickle.loads(_pickle.dumps(fb))
+            y = None
         else:
             fb._reset_cache()
             y = None
@@ -244,7 +254,7 @@ def _expect(ops, M):
             fresh = False
         elif op[0] == 'n':
             exp.append(('z',))
-        elif op[0] in ('e', 'g'):
+        elif op[0] in ('e', 'g', 'k', 'p'):
             exp.append(None)
         else:
             exp.append(None)
@@ -386,6 +396,10 @@ def case_stream(c):
                           'estimate_channelized_stds() inserted at position %d of composition %s' % (i, comp))
             check_history(base[:i] + [('g',)] + base[i:], 'response_helpers_disturb_stream',
                           'get_response()/tile_response() inserted at position %d of composition %s' % (i, comp))
+            check_history(base[:i] + [('k',)] + base[i:], 'copy_loses_stream_state',
+                          'the object replaced by copy.deepcopy(itself) at position %d of composition %s' % (i, comp))
+            check_history(base[:i] + [('p',)] + base[i:], 'copy_loses_stream_state',
+                          'the object replaced by its pickle round trip at position %d of composition %s' % (i, comp))
             check_history(base[:i] + [('r',)] + base[i:], 'reset_stream',
                           '_reset_cache() inserted at position %d of composition %s' % (i, comp))
     res['state_keys'] = sorted(skeys)
